@@ -363,7 +363,7 @@ def install(ctx):
 
 def run(ctx):
     thorough = ctx.tier == "thorough"
-    n = (5000 if thorough else 150) // ctx.nshards
+    n = (20000 if thorough else 150) // ctx.nshards
     for j in range(n):
         r = ctx.rng("c20", j)
         case = gridcases.gen_case(r, max_cells=16, max_mag=4, max_events=25, rate_lo=-4, rate_hi=1, zero_frac=0.0 if j % 3 else 0.15, events_in_zero=False)
